@@ -29,9 +29,10 @@ FIELDS = {
     OrderKind: ["kind_id", "name"],
     Order: ["agent_id", "market_id", "is_buy", "kind", "volume", "placed_at", "price", "order_id", "ttl", "is_canceled"],
     Cancel: ["order", "placed_at"],
-    OrderBook: ["priority_queue", "is_buy", "time"],
+    OrderBook: ["priority_queue", "is_buy", "time", "expire_time_list", "logger"],
     Market: ["market_id", "_is_running", "time", "tick_size", "name", "buy_order_book", "sell_order_book",
-             "outstanding_shares"],
+             "outstanding_shares", "_next_order_id", "_n_buy_orders", "_n_sell_orders", "_mid_prices", "_market_prices",
+             "_last_executed_prices", "_executed_volumes", "_executed_total_prices", "logger"],
     IndexMarket: ["market_id", "_is_running", "time", "tick_size", "name", "_components", "outstanding_shares"],
     PriceLimitRule: ["target_markets", "trigger_change_rate", "activation_count", "is_enabled"],
     TradingHaltRule: ["target_markets", "trigger_change_rate", "activation_count", "halting_time_started",
@@ -45,7 +46,15 @@ FIELDS = {
     ExecutionLog: ["market_id", "time", "buy_agent_id", "sell_agent_id", "buy_order_id", "sell_order_id", "price", "volume"],
     Agent: ["agent_id", "cash_amount", "asset_volumes"],
 }
-CLASS_GLOBALS = ["Order", "OrderKind", "Cancel", "Market", "OrderBook", "IndexMarket"]
+LOG_FIELDS = {
+    "OrderLog": ["order_id", "market_id", "time", "agent_id", "is_buy", "kind", "volume", "price", "ttl"],
+    "CancelLog": ["order_id", "market_id", "cancel_time", "order_time", "agent_id", "is_buy", "kind", "volume", "price", "ttl"],
+    "ExecutionLog": ["market_id", "time", "buy_agent_id", "sell_agent_id", "buy_order_id", "sell_order_id", "price", "volume"],
+    "ExpirationLog": ["order_id", "market_id", "time", "order_time", "agent_id", "is_buy", "kind", "volume", "price", "ttl"],
+}
+UNORDERED = {"priority_queue"}      # heap layout in CPython, sorted order in the semantics: compared as multisets
+CLASS_GLOBALS = ["Order", "OrderKind", "Cancel", "Market", "OrderBook", "IndexMarket", "OrderLog", "CancelLog",
+                 "ExecutionLog", "ExpirationLog"]
 
 
 def cls_of(obj):
@@ -150,8 +159,9 @@ def norm(tok):
 class Case:
     """one call of one translated function on real objects"""
 
-    def __init__(self, fn, target, args, ext=(), patch=()):
+    def __init__(self, fn, target, args, ext=(), patch=(), ret_log=None):
         self.fn, self.target, self.args, self.ext, self.patch = fn, target, args, list(ext), list(patch)
+        self.ret_log = ret_log          # class name of the log object(s) the call returns, if any
 
     def lines_and_expect(self):
         ser = Ser()
@@ -176,11 +186,17 @@ class Case:
             lines.append("EXT %s %s %d %s %s" % (ser.tok_frozen(recv), name, len(eargs),
                                                " ".join(ser.tok_frozen(a) for a in eargs), ser.tok_frozen(res)))
         for obj, name in self.patch:
+            c = cls_of(obj)
+            lines.append("EXCLUDE %s.%s" % (c.__name__ if c else type(obj).__name__, name))
             lines.append("EXTANY %s %s N" % (ser.tok_frozen(obj), name))
         before = ser.snapshot()
         obs = sorted(before)
-        lines.append("RUN %s %d %s OBS %d %s" % (self.fn, len(self.args), " ".join(arg_toks), len(obs),
-                                                 " ".join("%d %s" % af for af in obs)))
+        retf = ""
+        if self.ret_log:
+            fs = LOG_FIELDS[self.ret_log]
+            retf = " RETF %d %s" % (len(fs), " ".join(fs))
+        lines.append("RUN %s %d %s OBS %d %s%s" % (self.fn, len(self.args), " ".join(arg_toks), len(obs),
+                                                   " ".join("%d %s" % af for af in obs), retf))
         # the real call
         calls = []
         undo = []
@@ -195,6 +211,10 @@ class Case:
                 warnings.simplefilter("ignore")
                 r = self.target(*self.args[1:]) if self.bound else self.target(*self.args)
             res = ("OK", ser.tok_frozen(r))
+            self.ret_expect = None
+            if self.ret_log:
+                objs = r if isinstance(r, list) else [r]
+                self.ret_expect = {(i, f): ser.tok_frozen(getattr(o, f)) for i, o in enumerate(objs) for f in LOG_FIELDS[self.ret_log]}
         except Exception as e:  # noqa: BLE001 - compared, not hidden
             res = ("ERR", type(e).__name__)
         for obj, name, old in undo:
@@ -247,7 +267,13 @@ def run_cases(cases):
         else:
             got = ("OK", head[len("RES OK "):])
         dist["outcome:" + (got[1] if got[0] == "ERR" else "ok")] = dist.get("outcome:" + (got[1] if got[0] == "ERR" else "ok"), 0) + 1
-        if (got[0], norm(got[1])) != (res[0], norm(res[1])):
+        opaque = res[0] == "OK" and "R?" in res[1]      # the call returned object(s) it created: compared field by field below
+        if opaque:
+            same = got[0] == "OK" and got[1].split()[0][0] == res[1].split()[0][0] and \
+                (res[1][0] != "L" or got[1].split()[0] == res[1].split()[0])
+        else:
+            same = (got[0], norm(got[1])) == (res[0], norm(res[1]))
+        if not same:
             diffs.append({"channel": ch, "what": "result", "model": got, "impl": res, "input": lines[-8:]})
             continue
         if res[0] == "OK":
@@ -256,7 +282,25 @@ def run_cases(cases):
                 if b.startswith("FLD "):
                     _, a, f, v = b.split(" ", 3)
                     flds[(int(a), f)] = v
+            if c.ret_log and c.ret_expect is not None:
+                rets = {}
+                for b in block:
+                    if b.startswith("RETF "):
+                        _, i, f, v = b.split(" ", 3)
+                        rets[(int(i), f)] = v
+                bad = [k for k in c.ret_expect if norm(rets.get(k, "?")) != norm(c.ret_expect[k])]
+                if bad or len(rets) != len(c.ret_expect):
+                    diffs.append({"channel": ch, "what": "fields of the returned %s" % c.ret_log,
+                                  "model": {str(k): rets.get(k) for k in bad[:4]}, "impl": {str(k): c.ret_expect[k] for k in bad[:4]},
+                                  "input": lines[-8:]})
+                    continue
             for k in obs:
+                if k[1] in UNORDERED and k in flds:
+                    if sorted(norm(flds[k]).split()[1:]) != sorted(norm(after[k]).split()[1:]):
+                        diffs.append({"channel": ch, "what": "field %s.%s after the call (as a multiset)" % k, "model": flds[k],
+                                      "impl": after[k], "input": lines[-8:]})
+                        break
+                    continue
                 if k in flds and flds[k] != "-" and norm(flds[k]) != norm(after[k]) and "R?" not in after[k]:
                     diffs.append({"channel": ch, "what": "field %s.%s after the call" % k, "model": flds[k],
                                   "impl": after[k], "input": lines[-8:]})
@@ -424,6 +468,57 @@ def gen_market_cases(rng, n):
             yield Case("Market.remain_executable_orders", m.remain_executable_orders, [m], ext=ext)
 
 
+def _book_market(rng, n_orders, running=True):
+    """a real market (no logger) holding a few resting orders, a few steps into the run"""
+    sim, ses, mks = _env(rng, 1, price=100.0)
+    m = mks[0]
+    m.tick_size = rng.choice([1.0, 0.5])
+    m._is_running = running
+    for _ in range(rng.randint(0, 2)):
+        m._update_time(next_fundamental_price=100.0)
+    placed = []
+    for _ in range(n_orders):
+        lim = rng.random() < 0.75
+        o = Order(agent_id=rng.randint(0, 3), market_id=0, is_buy=rng.random() < 0.5, kind=LIMIT_ORDER if lim else MARKET_ORDER,
+                  volume=rng.randint(1, 4), price=100.0 + rng.randint(-2, 2) * m.tick_size if lim else None,
+                  ttl=rng.choice([None, None, 1, 2]))
+        with warnings.catch_warnings():
+            warnings.simplefilter("ignore")
+            m._add_order(o)
+        placed.append(o)
+        if rng.random() < 0.3:
+            m._update_time(next_fundamental_price=100.0)
+    return sim, m, placed
+
+
+def gen_marketop_cases(rng, n):
+    for i in range(n):
+        r = rng.random()
+        sim, m, placed = _book_market(rng, rng.randint(0, 5), running=rng.random() < 0.85)
+        if r < 0.3:
+            lim = rng.random() < 0.8
+            o = Order(agent_id=rng.randint(0, 3), market_id=rng.choice([0, 0, 0, 7]), is_buy=rng.random() < 0.5,
+                      kind=LIMIT_ORDER if lim else MARKET_ORDER, volume=rng.randint(1, 4),
+                      price=100.0 + rng.choice([0, 1, -1, 0.3, 0.77, -1.5]) * m.tick_size if lim else None, ttl=rng.choice([None, 1, 3]))
+            if rng.random() < 0.1 and placed:
+                o = rng.choice(placed)        # resubmission
+            yield Case("Market._add_order", m._add_order, [m, o], ret_log="OrderLog",
+                       patch=[(m, "_update_market_price")] if False else [])
+        elif r < 0.5 and placed:
+            c = Cancel(order=rng.choice(placed))
+            yield Case("Market._cancel_order", m._cancel_order, [m, c], ret_log="CancelLog")
+        elif r < 0.8:
+            yield Case("Market._execution", m._execution, [m], ret_log="ExecutionLog",
+                       ext=[(m.sell_order_book, "get_price_volume", [], m.sell_order_book.get_price_volume()),
+                            (m.buy_order_book, "get_price_volume", [], m.buy_order_book.get_price_volume())])
+        elif r < 0.9:
+            b = rng.choice([m.buy_order_book, m.sell_order_book])
+            yield Case("OrderBook._set_time", b._set_time, [b, b.time + rng.choice([1, 1, 2, 3])], ret_log="ExpirationLog")
+        else:
+            b = rng.choice([m.buy_order_book, m.sell_order_book])
+            yield Case("OrderBook.get_best_price", b.get_best_price, [b])
+
+
 class _PlainAgent(Agent):
     def submit_orders(self, markets):
         return []
@@ -448,7 +543,8 @@ def gen_ledger_cases(rng, n):
         yield Case("Simulator._update_agents_for_execution", sim._update_agents_for_execution, [sim, logs])
 
 
-GENS = {"order": gen_order_cases, "event": gen_event_cases, "market": gen_market_cases, "ledger": gen_ledger_cases}
+GENS = {"order": gen_order_cases, "event": gen_event_cases, "market": gen_market_cases, "ledger": gen_ledger_cases,
+        "marketop": gen_marketop_cases}
 
 
 def run(ctx, groups, n_each):
